@@ -19,7 +19,16 @@
  * Number of busy-loop attempts before waiting on futex for grace period
  * batching.
  */
+#ifndef URCU_WAIT_ATTEMPTS
 #define URCU_WAIT_ATTEMPTS 1000
+#endif
+#ifdef URCU_VERIF
+#include <urcu/verif.h>
+#else
+#ifndef urcu_verif_point
+#define urcu_verif_point(id, ctx) do { } while (0)
+#endif
+#endif
 
 enum urcu_wait_state {
 	/* URCU_WAIT_WAITING is compared directly (futex compares it). */
@@ -115,11 +124,13 @@ void urcu_adaptative_wake_up(struct urcu_wait_node *wait)
 {
 	urcu_posix_assert(uatomic_load(&wait->state) == URCU_WAIT_WAITING);
 	uatomic_store(&wait->state, URCU_WAIT_WAKEUP, CMM_RELEASE);
+	urcu_verif_point(URCU_VP_WAIT_WAKER_MID, wait);
 	if (!(uatomic_load(&wait->state) & URCU_WAIT_RUNNING)) {
 		if (futex_noasync(&wait->state, FUTEX_WAKE, 1,
 				NULL, NULL, 0) < 0)
 			urcu_die(errno);
 	}
+	urcu_verif_point(URCU_VP_WAIT_WAKER_PRE_TEARDOWN, wait);
 	/* Allow teardown of struct urcu_wait memory. */
 	uatomic_or_mo(&wait->state, URCU_WAIT_TEARDOWN, CMM_RELEASE);
 }
@@ -140,6 +151,7 @@ void urcu_adaptative_busy_wait(struct urcu_wait_node *wait)
 			goto skip_futex_wait;
 		caa_cpu_relax();
 	}
+	urcu_verif_point(URCU_VP_WAIT_WAITER_PRE_FUTEX, wait);
 	while (uatomic_load(&wait->state, CMM_ACQUIRE) == URCU_WAIT_WAITING) {
 		if (!futex_noasync(&wait->state, FUTEX_WAIT, URCU_WAIT_WAITING, NULL, NULL, 0)) {
 			/*
@@ -167,6 +179,7 @@ void urcu_adaptative_busy_wait(struct urcu_wait_node *wait)
 	}
 skip_futex_wait:
 
+	urcu_verif_point(URCU_VP_WAIT_WAITER_PRE_RUNNING, wait);
 	/* Tell waker thread than we are running. */
 	uatomic_or(&wait->state, URCU_WAIT_RUNNING);
 
